@@ -81,8 +81,9 @@ def limits(rep, prog, f, b):
             cm.view_info(f, list(operand_locals(cv.args[1]))[0])[0] == by_ty("usize")
         rep.ob("PROV", f.path + "|convert_costs(opslimit, memlimit)", ok2, "argument order", loc=cv.loc())
         e0, e1 = ax[0], ax[1]
-        rep.ob("PROV", f.path + "|t is .0, m is .1", repr(e0).endswith(".0") and repr(e1).endswith(".1"),
-               "t_cost <- %r, m_cost <- %r" % (e0, e1), loc=c.loc())
+        r0, r1 = cm.conv_component(prog, e0)[0], cm.conv_component(prog, e1)[0]
+        rep.ob("PROV", f.path + "|t is .0, m is .1", (r0, r1) == ("t", "m"),
+               "t_cost <- %r (the %s component of the conversion), m_cost <- %r (the %s component)" % (e0, r0, e1, r1), loc=c.loc())
     rep.ob("PROV", f.path + "|one lane", evaluate(ax[2], {}) == 1, "parallelism operand is %r" % evaluate(ax[2], {}), loc=c.loc())
 
 
@@ -92,11 +93,12 @@ def _arg_role(g, arg, roles):
     x = e
     while x is not None and x.k == "cast":
         x = x.a
-    if x is not None and x.k == "field" and x.a.k == "call" and x.b in ("0", "1") and x.a.a.is_local:
-        # (t, m) = convert(opslimit, memlimit)
+    if x is not None and x.k == "field" and x.a.k == "call" and x.a.a.is_local:
+        # (t, m) = convert(opslimit, memlimit), as a tuple or a small record
+        comp, _cv = cm.conv_component(g.prog, x)
         inner = [_arg_role(g, a, roles) for a in x.a.a.args]
-        if inner[:2] == ["t_cost", "m_cost"]:
-            return "t_cost" if x.b == "0" else "m_cost"
+        if comp is not None and inner[:2] == ["t_cost", "m_cost"]:
+            return "t_cost" if comp == "t" else "m_cost"
     v = evaluate(e, {})
     if v == 1 and not isinstance(v, bool):
         return "parallelism"
@@ -148,8 +150,8 @@ def context_guards(rep, prog):
             continue
         # comparisons in its own body or in validation helpers it calls with `?` (their Ok-postconditions)
         ef_ = edge_facts(g, cm.view_info)
-        cmp_params = {str(l) for fs_ in ef_.values() for op, l, r in fs_ if isinstance(l, tuple) and l[0] in ("len", "local")
-                      and isinstance(l[1], int) and 1 <= l[1] <= g.argc}
+        cmp_params = {str(x_) for fs_ in ef_.values() for op, l, r in fs_ for x_ in (l, r) if isinstance(x_, tuple) and x_[0] in ("len", "local")
+                      and isinstance(x_[1], int) and 1 <= x_[1] <= g.argc}
         if len(cmp_params) >= 5:
             qual.append(g)
     qk = {g.key for g in qual}
@@ -228,6 +230,8 @@ def convert(rep, prog):
         txt = repr(e)
         if e.k == "agg" and e.c and len(e.c) == 2:
             a, b = e.c
+            if cm.expr_leaf_locals(a) & {1, 2} == {2}:
+                a, b = b, a         # components in the other order: roles are by source parameter
             ok = (a.k == "cast" and a.a.k == "local" and a.a.a == 1 and
                   b.k == "cast" and b.a.k in ("binop", "field"))
             # b: cast(Div(memlimit, 1024)) possibly through an overflow-free Div
